@@ -35,7 +35,9 @@ RULE = ("(base,left,right) built per key from the 13 change patterns (unchanged,
         "non-trivial = at least one key changed on the right")
 ASSUMPTIONS = ["the handler resolves a divergent delete only to 'deleted' (what the differ route assumes; visible as delete_resolves_to_delete in the theorem)"]
 REQUIRED_TAGS = ["op0", "op1", "op2", "op3", "op4", "op5", "op6", "op7", "op8", "op9", "op10", "op11", "op12", "callback", "multi-chunk",
-                 "height2", "empty-base", "empty-left", "empty-right", "resolved-delete", "block-add", "block-delete", "range-patch", "point-patch", "range-and-point-patches"]
+                 "height2", "empty-base", "empty-left", "empty-right", "resolved-delete", "block-add", "block-delete", "range-patch", "point-patch", "range-and-point-patches",
+                 "height>=3-merge", "last-leaf-edit", "first-leaf-edit", "left-edit-on-right-range-end", "left-edit-on-right-range-start",
+                 "left-insert-inside-right-removed-range", "left-insert-inside-right-removed-range-head"]
 HARNESS_TIMEOUT = 900
 
 
@@ -121,9 +123,27 @@ def gen_one(rng, big=False):
     return {"base": base, "left": left, "right": right, "mode": rng.randint(0, 4), "pad": rng.choice([0, 0, 30])}
 
 
+SCENS = ["tail", "head", "range-end", "range-start", "removed-insert", "removed-insert-head"]
+
+
+def gen_scen(rng, scen=None):
+    """boundary-aware cases on tall trees (wide keys): the harness places the edits on chunk edges"""
+    return {"base": [], "left": [], "right": [], "mode": rng.randint(0, 4), "pad": rng.choice([0, 20]),
+            "scen": scen or rng.choice(SCENS), "seed": rng.randrange(1 << 30), "n": rng.randint(40, 160),
+            "kpad": rng.choice([700, 1000, 1400]), "shift": rng.randint(0, 4)}
+
+
+def _inp(case, out):
+    o = (out or {}).get("obs") or {}
+    return o.get("in") or case
+
+
 def gen_cases(rng, tier):
     quick = tier == "quick"
     cases = []
+    for sc in SCENS:
+        for _ in range(16 if quick else 200):
+            cases.append(gen_scen(rng, sc))
     for _ in range(400 if quick else 8000):
         cases.append(gen_one(rng))
     for _ in range(16 if quick else 300):
@@ -145,8 +165,9 @@ def _triple(c):
 
 def coq_case(case, out):
     o = out.get("obs")
+    src = _inp(case, out)
     inp = "{| i_base := %s; i_left := %s; i_right := %s; i_mode := %d |}" % (
-        _dict(case["base"]), _dict(case["left"]), _dict(case["right"]), case["mode"])
+        _dict(src["base"]), _dict(src["left"]), _dict(src["right"]), case["mode"])
     if o is None or out.get("err"):
         return "(%s, {| d_ops := [(0, (99, None, None)); (0, (99, None, None))]; d_calls := []; p_res := []; p_calls := []; p_canon := false; p_stream := [] |})" % inp
     dops = cq_list("(%d, (%d, %s, %s))" % (x["k"], x["op"], _opt(x.get("r")), _opt(x.get("m"))) for x in o["dops"])
@@ -172,9 +193,22 @@ def classify(case, out):
     if o["chunks"] > 1:
         t.append("multi-chunk")
     t.append("height%d" % o["height"])
+    src = _inp(case, out)
     for nm in ("base", "left", "right"):
-        if not case[nm]:
+        if not src[nm]:
             t.append("empty-" + nm)
+    if case.get("scen") and not o.get("note"):
+        sc = case["scen"]
+        t.append("scen:" + sc)
+        if o.get("rheight", 0) >= 3:
+            t.append("height>=3-merge")
+        t.append({"tail": "last-leaf-edit", "head": "first-leaf-edit", "range-end": "left-edit-on-right-range-end",
+                  "range-start": "left-edit-on-right-range-start", "removed-insert": "left-insert-inside-right-removed-range",
+                  "removed-insert-head": "left-insert-inside-right-removed-range-head"}[sc])
+        if sc in ("range-end", "range-start") and any(p["lvl"] > 0 for p in o["stream"]):
+            t.append(sc + ":range-sent")
+        if sc.startswith("removed-insert") and any(p["lvl"] > 0 and not p.get("c") for p in o["stream"]):
+            t.append(sc + ":removed-range-sent")
     if any(x["op"] == 12 for x in o["dops"]):
         t.append("resolved-delete")
     for b in case.get("blocks", []):
@@ -201,6 +235,11 @@ def nontrivial(case, out):
 
 
 def shrink_candidates(case):
+    if case.get("scen"):
+        if case["n"] > 40:
+            c = dict(case); c["n"] = max(40, case["n"] * 3 // 4)
+            yield c
+        return
     ks = sorted({e[0] for nm in ("base", "left", "right") for e in case[nm]})
     def without(drop):
         c = dict(case)
